@@ -17,5 +17,12 @@ func main() {
 		fmt.Fprintf(os.Stderr, "mclib: no engine-A property %q\n", id)
 		os.Exit(2)
 	}
+	if f := os.Getenv("MC_FRESH"); f != "" {
+		// one operation as the first library call of this process (C15)
+		i := 0
+		fmt.Sscanf(f, "%d", &i)
+		fmt.Println(mcprops.Fresh(id, i))
+		return
+	}
 	harness.Run(p)
 }
